@@ -38,14 +38,16 @@ def lattice(chk, binary, fn):
 def make_search(chk, binary):
     def search(name):
         """A theorem stopped elaborating: look for a concrete small-integer vector (three scales: direct branch,
-        lengthTiny branch, subnormal) on which the REAL code disagrees with the exact norm / quotient."""
+        lengthTiny branch, subnormal) on which the REAL code disagrees with the exact norm / quotient.  Only the function
+        the theorem is about (and the length() it calls) is consulted, so that a theorem which fails merely because a
+        sibling's lemma module no longer builds is reported without a misleading input."""
         if not binary:
             return None
         fn = function_of(name)
         tried = [fn] if fn else []
         if fn and fn.split(".")[1].startswith("normal"):
             tried.append(fn.split(".")[0] + ".length")  # a normalize theorem can break because length() changed
-        for f in tried + [None]:
+        for f in (tried if fn else [None]):
             rc, out = lattice(chk, binary, f)
             fails = [l for l in out.split("\n") if l.startswith("RESIDUE-FAIL")]
             if fails:
